@@ -23,6 +23,8 @@ import (
 	"sync"
 
 	"google.golang.org/grpc"
+	"google.golang.org/grpc/metadata"
+	"google.golang.org/grpc/status"
 )
 
 type key int
@@ -86,6 +88,7 @@ type gcpClientStream struct {
 
 	cond          *sync.Cond
 	initStreamErr error
+	ctxWatch      sync.Once
 
 	ctx      context.Context
 	desc     *grpc.StreamDesc
@@ -95,36 +98,116 @@ type gcpClientStream struct {
 	opts     []grpc.CallOption
 }
 
+// initStream creates the underlying ClientStream if it does not exist yet.
+// m is the first request message (nil if there is none).
+// Must be called holding the lock.
+func (cs *gcpClientStream) initStream(m interface{}) error {
+	if cs.ClientStream != nil {
+		return nil
+	}
+	ctx := context.WithValue(cs.ctx, gcpKey, &gcpContext{reqMsg: m})
+	realCS, err := cs.streamer(ctx, cs.desc, cs.cc, cs.method, cs.opts...)
+	if err != nil {
+		cs.initStreamErr = err
+		return err
+	}
+	cs.ClientStream = realCS
+	return nil
+}
+
+// waitStream blocks until the underlying ClientStream is created, its creation
+// failed, or the call's context is done.
+// Must be called holding the lock.
+func (cs *gcpClientStream) waitStream() error {
+	cs.ctxWatch.Do(func() {
+		if cs.ctx.Done() == nil {
+			return
+		}
+		// Wake up the waiters when the context is done.
+		go func() {
+			<-cs.ctx.Done()
+			// Taking the lock makes sure a waiter is either before its context
+			// check or already inside cond.Wait, so the wake-up is not lost.
+			cs.Lock()
+			cs.Unlock()
+			cs.cond.Broadcast()
+		}()
+	})
+	for cs.initStreamErr == nil && cs.ClientStream == nil {
+		if err := cs.ctx.Err(); err != nil {
+			return status.FromContextError(err).Err()
+		}
+		cs.cond.Wait()
+	}
+	return cs.initStreamErr
+}
+
 func (cs *gcpClientStream) SendMsg(m interface{}) error {
 	cs.Lock()
 	// Initialize underlying ClientStream when getting the first request.
-	if cs.ClientStream == nil {
-		ctx := context.WithValue(cs.ctx, gcpKey, &gcpContext{reqMsg: m})
-		realCS, err := cs.streamer(ctx, cs.desc, cs.cc, cs.method, cs.opts...)
-		if err != nil {
-			cs.initStreamErr = err
-			cs.Unlock()
-			cs.cond.Broadcast()
-			return err
-		}
-		cs.ClientStream = realCS
-	}
+	err := cs.initStream(m)
 	cs.Unlock()
 	cs.cond.Broadcast()
+	if err != nil {
+		return err
+	}
 	return cs.ClientStream.SendMsg(m)
 }
 
 func (cs *gcpClientStream) RecvMsg(m interface{}) error {
 	// If RecvMsg is called before SendMsg, it should wait until cs.ClientStream
-	// is initialized or the initialization failed.
+	// is initialized, the initialization failed or the context is done.
 	cs.Lock()
-	for cs.initStreamErr == nil && cs.ClientStream == nil {
-		cs.cond.Wait()
-	}
-	if cs.initStreamErr != nil {
-		cs.Unlock()
-		return cs.initStreamErr
-	}
+	err := cs.waitStream()
 	cs.Unlock()
+	if err != nil {
+		return err
+	}
 	return cs.ClientStream.RecvMsg(m)
+}
+
+// Header waits for the underlying ClientStream like RecvMsg does.
+func (cs *gcpClientStream) Header() (metadata.MD, error) {
+	cs.Lock()
+	err := cs.waitStream()
+	cs.Unlock()
+	if err != nil {
+		return nil, err
+	}
+	return cs.ClientStream.Header()
+}
+
+// Trailer returns nil if the underlying ClientStream is not created yet.
+func (cs *gcpClientStream) Trailer() metadata.MD {
+	cs.Lock()
+	realCS := cs.ClientStream
+	cs.Unlock()
+	if realCS == nil {
+		return nil
+	}
+	return realCS.Trailer()
+}
+
+// Context returns the context of the underlying ClientStream or the context
+// the stream was requested with if the former is not created yet.
+func (cs *gcpClientStream) Context() context.Context {
+	cs.Lock()
+	realCS := cs.ClientStream
+	cs.Unlock()
+	if realCS == nil {
+		return cs.ctx
+	}
+	return realCS.Context()
+}
+
+// CloseSend creates the underlying ClientStream if no request was sent.
+func (cs *gcpClientStream) CloseSend() error {
+	cs.Lock()
+	err := cs.initStream(nil)
+	cs.Unlock()
+	cs.cond.Broadcast()
+	if err != nil {
+		return err
+	}
+	return cs.ClientStream.CloseSend()
 }
